@@ -358,7 +358,7 @@ func checkC14(c *Cell, seed uint64, orders int, tier, out string, res *Result, s
 		got2 := generate(c, tape.Replay(min), days)
 		rp.Trace = []string{"canonical order, clock t0: " + summary(ref), fmt.Sprintf("order tape %v, clock t0+%dd: %s", min, days, summary(got2)), "first difference: " + firstDiff(ref, got2)}
 		rp.TraceHash = fmt.Sprintf("%016x", fnvs(string(ref))^fnvs(string(got2)))
-		name := fmt.Sprintf("%s.viol.%s.json", out, c.ID)
+		name := fmt.Sprintf("%s.viol.%s.%s.json", out, c.ID, class)
 		data, _ := json.MarshalIndent(rp, "", " ")
 		os.WriteFile(name, data, 0o644)
 		res.Violations = append(res.Violations, name)
@@ -382,7 +382,7 @@ func checkC14(c *Cell, seed uint64, orders int, tier, out string, res *Result, s
 		}
 		if !same(got, ref) {
 			report("order-or-clock-dependent-output", tp.Out, days, got)
-			break
+			return // one finding per cell: what follows would only restate it
 		}
 	}
 	// fresh generator instances that coexist: another Mocker with different
@@ -474,6 +474,7 @@ func (w *yieldingWriter) Write(p []byte) (int, error) {
 // concurrentPair generates c and d at the same time in two simulated tasks.
 func concurrentPair(c, d *Cell, tp *tape.Tape) (a, b []byte) {
 	simhook.Install(nil)
+	simhook.SetClock(simhook.Epoch())
 	sim := simrt.New(tp, simrt.Strategy{})
 	sim.MaxEvents = 2000000
 	run := func(c *Cell, dst *[]byte) func() {
@@ -512,6 +513,7 @@ func inSim(tp *tape.Tape, f func() []byte) (out []byte) {
 		st = tape.Replay(nil)
 	}
 	simhook.Install(nil)
+	simhook.SetClock(simhook.Epoch()) // the canonical clock, as for the reference generation
 	sim := simrt.New(st, simrt.Strategy{})
 	sim.MaxEvents = 2000000
 	sim.Go("moq", func() {
@@ -651,6 +653,7 @@ func (w *faultWriter) Write(p []byte) (int, error) {
 func runWriter(c *Cell, names []string, plan WriterPlan) (w *faultWriter, err error, panicked string) {
 	w = &faultWriter{plan: plan}
 	simhook.Install(nil)
+	simhook.SetClock(simhook.Epoch())
 	// as the first task of a (canonically scheduled) simulation: moq's code may
 	// use sync or start goroutines, which exist only inside one
 	sim := simrt.New(tape.Replay(nil), simrt.Strategy{})
